@@ -53,6 +53,14 @@ let obj_str o = Printf.sprintf "%s,%s,%s,%d,%d" (string_of_pstr (text o)) (bools
 let ascii_of_int n = Ascii (n land 1 = 1, n land 2 = 2, n land 4 = 4, n land 8 = 8, n land 16 = 16, n land 32 = 32, n land 64 = 64, n land 128 = 128)
 let asciis_of_hex h = List.init (String.length h / 2) (fun i -> ascii_of_int (int_of_string ("0x" ^ String.sub h (2 * i) 2)))
 
+(* a linear combination on the wire: terms "re,im,STRING" joined by ';', "-" for the empty combination *)
+let term_of s = match String.split_on_char ',' s with
+  | [a; b; p] -> ((z_of_int (int_of_string a), z_of_int (int_of_string b)), pstr_of_string p)
+  | _ -> failwith "bad term"
+let lin_of s = if s = "-" then [] else List.map term_of (String.split_on_char ';' s)
+let lin_str l = if l = [] then "-" else String.concat ";" (List.map (fun ((a, b), p) -> Printf.sprintf "%d,%d,%s" (int_of_z a) (int_of_z b) (string_of_pstr p)) l)
+let dense_str n a = String.concat ";" (List.map (fun row -> String.concat " " (List.map gi_str row)) (dense (nat_of_int n) (fun r c -> denote a r c)))
+
 let handle (toks : string list) : string =
   match toks with
   | ["sign"; p; q] -> res_str gi_str (sign_code (pstr_of_string p) (pstr_of_string q))
@@ -136,6 +144,22 @@ let handle (toks : string list) : string =
   | "complexity" :: n :: v :: gens ->
       (match complexity_counts (nat_of_int (int_of_string n)) (List.map pstr_of_string gens) (pstr_of_string v) with
        | None -> "None" | Some (a, s) -> Printf.sprintf "%d %d" (int_of_nat a) (int_of_nat s))
+  | ["lin"; op; a; b] ->
+      let x = lin_of a and y = lin_of b in
+      (match op with
+       | "simplify" -> lin_str (simplify x)
+       | "add" -> lin_str (ladd x y)
+       | "herm" -> lin_str (lherm x)
+       | "matmul" -> lin_str (lmatmul x y)
+       | "matmul_alias_old" -> lin_str (lmatmul_alias_old x)
+       | "trace" -> gi_str (ltrace x)
+       | "trace_old" -> gi_str (ltrace_old x)
+       | "is_zero" -> bool_str (lis_zero x)
+       | "is_zero_old" -> bool_str (lis_zero_old x)
+       | "eq" -> bool_str (leq x y)
+       | "dense" -> dense_str (int_of_nat (size_of x)) x
+       | _ -> "ERR lin op")
+  | ["linscale"; re; im; a] -> lin_str (lscale (z_of_int (int_of_string re), z_of_int (int_of_string im)) (lin_of a))
   | _ -> "ERR unknown request"
 
 let () =
